@@ -477,8 +477,10 @@ def var2h(se, nbsec_per_period=3600, maxgapsec=5*86400,
     display = np.int32(display)
     varvalues = se.values.astype(np.float64)
 
+    # Seconds since epoch whatever the resolution of the index (s/ms/us/ns)
     time = se.index.tz_localize(None).values
-    varsec = np.int64(time.astype(np.int64)/1000000000)
+    epoch = np.datetime64("1970-01-01T00:00:00")
+    varsec = ((time - epoch)//np.timedelta64(1, "s")).astype(np.int64)
 
     # Determines start and end of time series
     start = se.index[0]
